@@ -98,15 +98,24 @@ fn handle_get<W: Write>(root: &Path, path: &str, w: &mut W) -> std::io::Result<(
     let Some(dst) = safe_join(root, path) else {
         return write_frame(w, &Response::Error("bad path".into()));
     };
-    match (std::fs::metadata(&dst), current_hash(&dst)) {
-        (Ok(m), Some(hash)) => {
-            write_frame(w, &Response::Content { len: m.len(), hash })?;
-            let mut f = std::fs::File::open(&dst)?;
-            std::io::copy(&mut f, w)?;
-            w.flush()
-        }
-        _ => write_frame(w, &Response::Error("not found".into())),
-    }
+    // ONE descriptor supplies the length, the hash and the bytes: commits replace the
+    // inode by rename, so whatever is committed meanwhile the three always describe the
+    // same content (stat + hash + a second open could straddle a concurrent commit).
+    let opened = std::fs::File::open(&dst)
+        .ok()
+        .filter(|f| f.metadata().is_ok_and(|m| m.is_file()));
+    let Some(mut f) = opened else {
+        return write_frame(w, &Response::Error("not found".into()));
+    };
+    let mut hasher = blake3::Hasher::new();
+    let Ok(len) = std::io::copy(&mut f, &mut hasher) else {
+        return write_frame(w, &Response::Error("not found".into()));
+    };
+    let hash = *hasher.finalize().as_bytes();
+    std::io::Seek::seek(&mut f, std::io::SeekFrom::Start(0))?;
+    write_frame(w, &Response::Content { len, hash })?;
+    std::io::copy(&mut f.take(len), w)?;
+    w.flush()
 }
 
 #[allow(clippy::too_many_arguments)]
